@@ -161,8 +161,30 @@ def expectedV1Paths : List (List String × String) := [
   ([], "settings.Translate(), nil")]
 
 /-- O2 (regenerated): the validation functions of the current source have the audited skeletons -/
-theorem validation_sites : Gen.v2ParsePaths = expectedV2Paths ∧ Gen.v1ParsePaths = expectedV1Paths ∧
-    Gen.parseConfigPaths.length = 5 ∧ Gen.overrideParsePaths.length = 6 := by decide
+theorem validation_sites : Gen.v2ParsePaths = expectedV2Paths ∧ Gen.v1ParsePaths = expectedV1Paths := by decide
+
+/-- the version dispatcher, the engine-tag rule for global overrides and Override.Parse, likewise -/
+theorem validation_sites_rest :
+    Gen.parseConfigPaths = [
+      (["if err := dec.Decode(&version); err != nil"], "config, err"),
+      (["if version.Number == \"\""], "config, ErrMissingVersion"),
+      (["switch version.Number case \"1\""], "v1ParseConfig(&buf)"),
+      (["switch version.Number case \"2\""], "v2ParseConfig(&buf)"),
+      (["switch version.Number default"], "config, ErrUnknownVersion")
+    ] ∧
+    Gen.v2GlobalOverridePaths = [
+      (["if c.Gen.Go == nil"], "nil"),
+      (["range c.Gen.Go.Overrides", "if usesMultipleEngines && oride.Engine == \"\""], "fmt.Errorf(`the \"engine\" field is required for global type overrides because your configuration uses multiple database engines`)"),
+      ([], "nil")
+    ] ∧
+    Gen.overrideParsePaths = [
+      (["if o.Deprecated_PostgresType != \"\"", "if o.DBType != \"\""], "fmt.Errorf(`Type override configurations cannot have \"db_type\" and \"postres_type\" together. Use \"db_type\" alone`)"),
+      (["switch  case o.Column != \"\" && o.DBType != \"\""], "fmt.Errorf(\"Override specifying both `column` (%q) and `db_type` (%q) is not valid.\", o.Column, o.DBType)"),
+      (["switch  case o.Column == \"\" && o.DBType == \"\""], "fmt.Errorf(\"Override must specify one of either `column` or `db_type`\")"),
+      (["if o.Column != \"\"", "switch len(colParts) default"], "fmt.Errorf(\"Override `column` specifier %q is not the proper format, expected '[catalog.][schema.]colname.tablename'\", o.Column)"),
+      (["if err != nil"], "err"),
+      ([], "nil")
+    ] := ⟨rfl, rfl, rfl⟩
 
 theorem checkGo_none_iff (g : Option GoT) :
     checkGo g = none ↔ goOk g = true := by
